@@ -58,6 +58,16 @@ Section OrderMap.
         | (_, Some _) => None
         end
     end.
+
+  (* css::Value::Map == Map: `a.len() == b.len() && a.iter().all(|(k, v)| b.get(k) == Some(v))`;
+     veqv stored_in_b value_of_a *)
+  Variable veqv : V -> V -> bool.
+  Definition om_eq (a b : omap) : bool :=
+    Nat.eqb (length a) (length b) &&
+    forallb (fun kv => match om_get b (fst kv) with
+                       | Some v' => veqv v' (snd kv)
+                       | None => false
+                       end) a.
 End OrderMap.
 
 (* ---- sass/functions/map.rs on values ---- *)
@@ -80,16 +90,16 @@ Definition v_merge (m1 m2 : vmap) : vmap := om_merge veq m1 m2.
 Definition v_keys (m : vmap) : value := VList (om_keys m) (Some SComma) false.
 Definition v_values (m : vmap) : value := VList (om_values m) (Some SComma) false.
 
-(* fn set_inner (keys non-empty; the empty case is the "contain a value" error) *)
+(* fn set_inner (keys non-empty; the empty case is the error about a missing value):
+   the nested map is read with get, the entry is then replaced in place by insert *)
 Fixpoint set_inner (m : vmap) (keys : list value) (x : value) : option vmap :=
   match keys with
   | [] => None
   | [key] => Some (fst (om_insert veq m key x))
   | key :: rest =>
-      let (m', old) := om_remove veq m key in
-      let inner := match old with Some (VMap i) => i | _ => [] end in
+      let inner := match om_get veq m key with Some (VMap i) => i | _ => [] end in
       match set_inner inner rest x with
-      | Some i' => Some (fst (om_insert veq m' key (VMap i')))
+      | Some i' => Some (fst (om_insert veq m key (VMap i')))
       | None => None
       end
   end.
